@@ -64,6 +64,10 @@ type Front struct {
 	ln   net.Listener
 	hs   *http.Server
 	Base string // http://127.0.0.1:port
+	// Stall, when set, may hold a response half way: it returns how many body
+	// bytes to send first and a channel to wait for before sending the rest
+	// (nil = do not stall). Called without the front's lock held.
+	Stall func(rec *sim.ReqRec, bodyLen int) (after int, release <-chan struct{})
 }
 
 func NewFront(srv *sim.LFSServer) (*Front, error) {
@@ -134,6 +138,19 @@ func (f *Front) ServeHTTP(w http.ResponseWriter, r *http.Request) {
 		w.Header().Set("Content-Length", fmt.Sprint(len(bodyOut)))
 	}
 	w.WriteHeader(resp.Status)
+	if f.Stall != nil && !cut {
+		if after, release := f.Stall(rec, len(bodyOut)); release != nil && after < len(bodyOut) {
+			w.Write(bodyOut[:after])
+			if fl, ok := w.(http.Flusher); ok {
+				fl.Flush()
+			}
+			select {
+			case <-release:
+			case <-time.After(30 * time.Second):
+			}
+			bodyOut = bodyOut[after:]
+		}
+	}
 	w.Write(bodyOut)
 	if cut {
 		if fl, ok := w.(http.Flusher); ok {
@@ -172,6 +189,7 @@ type World struct {
 	// Extra: further LFS servers (one store each), for remotes that do not
 	// share the first one; RemoteSrv maps a bare remote's directory to its server.
 	Extra     []*Front
+	stepMu    sync.Mutex
 	RemoteSrv map[string]*Front
 }
 
@@ -316,7 +334,9 @@ func (w *World) Run(dir string, opts *RunOpts, name string, args ...string) (out
 		if len(o) > 1500 {
 			o = o[:700] + "\n…\n" + o[len(o)-700:]
 		}
+		w.stepMu.Lock()
 		w.Steps = append(w.Steps, StepRec{Dir: filepath.Base(dir), Args: append([]string{name}, args...), Exit: exit, Killed: killed, Out: o})
+		w.stepMu.Unlock()
 	}
 	return out, exit
 }
